@@ -2,6 +2,11 @@ use vstd::prelude::*;
 verus! {
 //@include frag/std.tpl
 //@include frag/core_modules.tpl
+pub mod shims {
+    pub mod scursor {
+//@include frag/scursor_shim.tpl
+    }
+}
 pub mod client {
     pub mod task {
 //@include frag/client_task_core.tpl
